@@ -3,6 +3,7 @@ package props
 import (
 	"errors"
 	"fmt"
+	"io"
 	"testing"
 
 	"github.com/cloudwego/gopkg/bufiox"
@@ -311,6 +312,18 @@ func checkErrStream(c ErrStreamCase, cv *cov) *evid.Violation {
 	if !errors.Is(err, injected) {
 		return evid.Failf("BufferReader %s on a valid %d-byte encoding whose source fails at byte %d with %q: returned error %q (%T) does not match the source error under errors.Is", c.Fn, len(b), sr.Plan.ErrAt, injected, err, err)
 	}
+	// ... and whatever the source error itself matches (its own chain of causes, e.g. io.EOF at the bottom)
+	for e, depth := errors.Unwrap(injected), 1; e != nil && depth < 6; e, depth = errors.Unwrap(e), depth+1 {
+		if errors.Is(injected, e) && !errors.Is(err, e) {
+			return evid.Failf("BufferReader %s: the source failed with %q (%T), which matches its cause %q (%T) under errors.Is; the returned error %q (%T) does not match that cause any more", c.Fn, injected, injected, e, e, err, err)
+		}
+	}
+	if se, ok := injected.(*srcExc); ok {
+		var got *srcExc
+		if !errors.As(err, &got) || got != se {
+			return evid.Failf("BufferReader %s: the source failed with a %T; errors.As on the returned error %q (%T) does not find it", c.Fn, injected, err, err)
+		}
+	}
 	cv.nontrivial = sr.Plan.ErrKind != 0 || sr.Plan.ErrAt > 0
 	cv.label("fn_" + c.Fn)
 	cv.label(fmt.Sprintf("errkind_%d", sr.Plan.ErrKind))
@@ -356,7 +369,7 @@ func genErrStreamCase(t *rapid.T) ErrStreamCase {
 		Chunks:   rapid.SliceOfN(rapid.SampledFrom([]int{0, 1, 3, 7}), 1, 2).Draw(t, "chunks"),
 		Zeros:    []int{rapid.SampledFrom([]int{0, 0, 1, 3}).Draw(t, "z")},
 		WithData: rapid.Bool().Draw(t, "wd"),
-		ErrKind:  rapid.IntRange(0, 4).Draw(t, "ek"),
+		ErrKind:  rapid.IntRange(0, nErrKinds-1).Draw(t, "ek"),
 	}
 	if len(b) > 0 {
 		c.Plan.ErrAt = rapid.IntRange(0, len(b)-1).Draw(t, "errAt")
@@ -428,7 +441,7 @@ func TestC17_MemExhaustive(t *testing.T) {
 }
 
 func TestC17_Stream(t *testing.T) {
-	rec := evid.New("C17", "c17_stream", "rapid + enumeration: valid encodings (generated values for Skip; fixed small inputs for every BufferReader.Read*) read through BufferReader over a source that fails at a position before the end of the encoding, with every error value (io.EOF, io.ErrUnexpectedEOF, a sentinel, a wrapped sentinel), with/after the last data, chunk sizes and zero reads; a failing call must satisfy errors.Is(err, source error); the enumeration covers every error position of every fixed input x 4 error values x with/after data; non-trivial = error value other than io.EOF or error position > 0")
+	rec := evid.New("C17", "c17_stream", "rapid + enumeration: valid encodings (generated values for Skip; fixed small inputs for every BufferReader.Read*) read through BufferReader over a source that fails at a position before the end of the encoding, with every error value (io.EOF, io.ErrUnexpectedEOF, a sentinel, a wrapped sentinel, a wrapper around a protocol exception, and three exception-shaped errors - with a TypeId method - that wrap io.EOF, a sentinel and a wrapped io.ErrUnexpectedEOF), with/after the last data, chunk sizes and zero reads; a failing call must satisfy errors.Is(err, source error), errors.Is(err, every cause in the source error's own chain) and errors.As for the source's type; the enumeration covers every error position of every fixed input x 8 error values x with/after data; non-trivial = error value other than io.EOF or error position > 0")
 	defer rec.Flush()
 	// enumeration of every error position for the fixed inputs and a few generated values
 	b := evid.NewBatch()
@@ -462,7 +475,7 @@ func TestC17_Stream(t *testing.T) {
 	fixed = append(fixed, ErrStreamCase{Fn: "skip", T: ref.STRUCT, Data: enc})
 	for _, fc := range fixed {
 		for at := 0; at < len(fc.Data); at++ {
-			for ek := 0; ek < 5; ek++ {
+			for ek := 0; ek < nErrKinds; ek++ {
 				for _, wd := range []bool{false, true} {
 					for _, ch := range []int{0, 1, 3} {
 						c := fc
@@ -490,8 +503,197 @@ func TestC17_Stream(t *testing.T) {
 	runRapid(t, rec, "c17_stream", evid.Pick(30000, 300000), genErrStreamCase, checkErrStream)
 }
 
+// srcExc is a source error that looks like a Thrift exception (it has a type id) and wraps the real cause:
+// what a transport layer hands up when a connection ends.
+type srcExc struct {
+	id    int32
+	cause error
+}
+
+func (e *srcExc) Error() string { return "transport: " + e.cause.Error() }
+func (e *srcExc) TypeId() int32 { return e.id }
+func (e *srcExc) Unwrap() error { return e.cause }
+
+const nErrKinds = 8
+
 func init() {
+	// ErrKind 5..7: exception-shaped source errors wrapping io.EOF / a sentinel / a wrapped io.ErrUnexpectedEOF
+	faultio.ExtraErrs = []error{
+		&srcExc{id: 3, cause: io.EOF},
+		&srcExc{id: 0, cause: faultio.ErrInjected},
+		&srcExc{id: 4, cause: fmt.Errorf("conn reset: %w", io.ErrUnexpectedEOF)},
+	}
 	// ErrKind 4: a source error that is itself a wrapper around a protocol exception (e.g. a proxy that failed
 	// while decoding upstream); the stream reader must still hand back an error matching the outer value
 	faultio.CustomErr = fmt.Errorf("upstream conn 7: %w", thrift.NewProtocolException(thrift.INVALID_DATA, "upstream sent garbage"))
+}
+
+// ---- a reader whose error changes from call to call ----------------------------------------------------
+
+// ChangingErrCase: a BufferReader over a bufiox.Reader that is not sticky: the first call fails with error A
+// (the data is not there yet), then the data arrives and the call succeeds, then the stream ends with error B.
+type ChangingErrCase struct {
+	Fn   string `json:"fn"`
+	KA   int    `json:"ka"`
+	KB   int    `json:"kb"`
+	Cut1 int    `json:"cut1"`
+	Cut2 int    `json:"cut2"`
+}
+
+func checkChangingErr(c ChangingErrCase, cv *cov) (v *evid.Violation) {
+	data := fixedInputFor(c.Fn)
+	if data == nil || c.Cut1 < 0 || c.Cut1 >= len(data) || c.Cut2 < 0 || c.Cut2 >= len(data) || c.KA == c.KB {
+		return nil
+	}
+	pa, pb := faultio.Plan{ErrKind: c.KA}, faultio.Plan{ErrKind: c.KB}
+	errA, errB := pa.Err(), pb.Err()
+	if errors.Is(errB, errA) || errors.Is(errA, errB) {
+		return nil // the two must be tellable apart
+	}
+	if c.Fn == "field" && (c.Cut1 == 0 || c.Cut2 == 0) {
+		// fine
+	}
+	call := func(r *thrift.BufferReader) (err error) {
+		switch c.Fn {
+		case "bool":
+			_, err = r.ReadBool()
+		case "byte":
+			_, err = r.ReadByte()
+		case "i16":
+			_, err = r.ReadI16()
+		case "i32":
+			_, err = r.ReadI32()
+		case "i64":
+			_, err = r.ReadI64()
+		case "double":
+			_, err = r.ReadDouble()
+		case "string":
+			_, err = r.ReadString()
+		case "binary":
+			_, err = r.ReadBinary()
+		case "field":
+			_, _, err = r.ReadFieldBegin()
+		case "map":
+			_, _, _, err = r.ReadMapBegin()
+		case "list":
+			_, _, err = r.ReadListBegin()
+		case "set":
+			_, _, err = r.ReadSetBegin()
+		case "msg":
+			_, _, _, err = r.ReadMessageBegin()
+		case "skip":
+			err = r.Skip(ref.STRING)
+		}
+		return
+	}
+	body := func() {
+		src := &faultio.StrictReader{Data: append([]byte(nil), data[:c.Cut1]...), Err: errA}
+		r := thrift.NewBufferReader(src)
+		defer r.Recycle()
+		err1 := call(r)
+		if err1 == nil {
+			return // needed fewer bytes
+		}
+		if !errors.Is(err1, errA) {
+			v = evid.Failf("BufferReader %s over a reader failing with %q returned %q (%T)", c.Fn, errA, err1, err1)
+			return
+		}
+		// the rest arrives; the same call now succeeds (the failed one consumed nothing from this reader)
+		src.Data = append(append(append([]byte(nil), src.Data[:src.Pos]...), data[src.Pos:]...), data[:c.Cut2]...)
+		src.Err = errB
+		if c.Fn == "string" || c.Fn == "binary" || c.Fn == "skip" || c.Fn == "msg" {
+			// these calls consume their length prefix / first part before they fail: start over on a fresh stream
+			src.Data, src.Pos = append(append([]byte(nil), data...), data[:c.Cut2]...), 0
+		}
+		if err2 := call(r); err2 != nil {
+			v = evid.Failf("BufferReader %s failed with %q although the reader now holds a complete encoding", c.Fn, err2)
+			return
+		}
+		err3 := call(r)
+		if err3 == nil {
+			return
+		}
+		if !errors.Is(err3, errB) {
+			v = evid.Failf("BufferReader %s: its reader first failed with %q, then delivered data, then failed with %q; the error returned for the second failure is %q (%T), which does not match %q under errors.Is", c.Fn, errA, errB, err3, err3, errB)
+			return
+		}
+		if !errors.Is(err1, errA) {
+			v = evid.Failf("the error returned for the first failure stopped matching %q after later calls", errA)
+			return
+		}
+		cv.nontrivial = true
+	}
+	if p, st := evid.Safe(body); p != nil {
+		return &evid.Violation{Msg: fmt.Sprintf("panic: %v", p), Stack: st}
+	}
+	return v
+}
+
+func fixedInputFor(fn string) []byte {
+	switch fn {
+	case "string", "binary", "skip":
+		return append(ref.Put32(nil, 9), []byte("nine byte")...)
+	case "msg":
+		return refMsgHeader("method", 1, 3)
+	case "field":
+		return []byte{11, 0, 1}
+	case "map":
+		return []byte{11, 12, 0, 0, 0, 1}
+	case "list", "set":
+		return []byte{11, 0, 0, 0, 1}
+	case "bool", "byte":
+		return []byte{1}
+	case "i16":
+		return []byte{1, 2}
+	case "i32":
+		return []byte{1, 2, 3, 4}
+	case "i64", "double":
+		return []byte{1, 2, 3, 4, 5, 6, 7, 8}
+	}
+	return nil
+}
+
+func init() { register("c17_changing_errors", checkChangingErr) }
+
+func TestC17_ChangingErrors(t *testing.T) {
+	rec := evid.New("C17", "c17_changing_errors", "enumeration: every BufferReader.Read* and Skip over a bufiox.Reader whose error is not sticky (a connection that times out, delivers, and later ends): first failure with error A at every cut of a fixed input, then the complete input is there and the call succeeds, then failure with error B at every cut; A, B over all ordered pairs of the 8 error values that are tellable apart; errors.Is(second failure, B) and errors.Is(first failure, A) must hold; distinct by construction; non-trivial = both failures happened")
+	defer rec.Flush()
+	b := evid.NewBatch()
+	fns := append([]string{"skip"}, memFnsNoSkip()...)
+	for _, fn := range fns {
+		data := fixedInputFor(fn)
+		for ka := 0; ka < nErrKinds; ka++ {
+			for kb := 0; kb < nErrKinds; kb++ {
+				for c1 := 0; c1 < len(data); c1++ {
+					for _, c2 := range []int{0, len(data) / 2, len(data) - 1} {
+						c := ChangingErrCase{Fn: fn, KA: ka, KB: kb, Cut1: c1, Cut2: c2}
+						var cv cov
+						v := checkChangingErr(c, &cv)
+						b.Evals++
+						if cv.nontrivial {
+							b.Distinct++
+							b.Nontrivial++
+						}
+						if v != nil {
+							failEnum(t, rec, "c17_changing_errors", c, v)
+							rec.Merge(b)
+							return
+						}
+					}
+				}
+			}
+		}
+	}
+	rec.Merge(b)
+	rec.Sample(ChangingErrCase{Fn: "i64", KA: 2, KB: 0, Cut1: 3, Cut2: 4})
+}
+
+func memFnsNoSkip() []string {
+	var out []string
+	for _, f := range memFns {
+		if f != "skip" {
+			out = append(out, f)
+		}
+	}
+	return out
 }
